@@ -41,10 +41,13 @@ class EADeme(AbstractDeme):
     def run_metaepoch(self, tree) -> None:
         epoch_counter = 0
         metaepoch_generations = []
+        # Every generation is bred from the previous one (the history is only extended after the loop).
+        parents = self.current_population
         while epoch_counter < self._generations:
-            offspring = self._ea.run(self.current_population, mutation_std=self._get_mutation_std())
+            offspring = self._ea.run(parents, mutation_std=self._get_mutation_std())
             epoch_counter += 1
             metaepoch_generations.append(offspring)
+            parents = offspring
 
             if tree._gsc(tree):
                 self._history.append(metaepoch_generations)
